@@ -1362,13 +1362,13 @@ RCP<const Boolean> Intersection::contains(const RCP<const Basic> &o) const
 {
     for (auto &a : container_) {
         auto contain = a->contains(o);
-        if (eq(*contain, *boolTrue)) {
-            return boolean(true);
+        if (eq(*contain, *boolFalse)) {
+            return boolean(false);
         }
         if (is_a<Contains>(*contain))
             throw NotImplementedError("Not implemented");
     }
-    return boolean(false);
+    return boolean(true);
 }
 
 RCP<const Set> Intersection::create(const set_set &in) const
